@@ -15,8 +15,8 @@ FUNCTIONS = ['emd.spectra.freq_from_phase', 'emd.spectra.phase_from_freq', 'emd.
              'emd.sift.interp_envelope (combined mode, exact pchip)']
 BOUNDS = {
     'quick': 'freq_from_phase / phase_from_freq on N <= 6 symbolic samples x 1..2 columns with a symbolic positive sample rate; wrap_phase on '
-             'N = 3 symbolic unbounded phases, both modes; amplitude_normalise on N = 6 symbolic samples (1 column): invariance under x2 and x1/4, '
-             'sign preservation, <= 3 normalisation iterations, for signals whose |x| has at least two interior maxima',
+             'N = 3 symbolic unbounded phases, both modes; amplitude_normalise on N = 6 symbolic samples (1 column): invariance under x2, '
+             'column independence (4 columns, one symbolic), sign preservation, <= 3 normalisation iterations, for signals whose |x| has at least two interior maxima',
     'thorough': 'N <= 8, 3 columns; amplitude_normalise with more scale factors and the splrep method',
 }
 OUTSIDE = 'NOT CLAIMED: the accuracy clause (a pure sinusoid of in-band frequency/amplitude/phase is recovered within tolerance) and the phase-range / ' \
@@ -30,7 +30,7 @@ LEVEL_NOTE = ('PARTIAL CLAIM: only the algebraic clauses of C09 are decided (fre
               'the FFT-based Hilbert transform and arctan2 in floating point and are NOT claimed - see DESIGN.md section 3.')
 REQUIRED_CLASSES = ['roundtrip:interior', 'wrap:negative-input', 'norm:normalised']
 EXPECTED_LABELS = ['freq-is-scaled-phase-derivative', 'roundtrip-two-sample-average', 'wrap-range-and-congruence',
-                   'normalise-scale-invariant', 'normalise-sign-preserving']
+                   'normalise-scale-invariant', 'normalise-sign-preserving', 'normalise-columns-independent']
 BUDGET_S = {'quick': 120, 'thorough': 1200}
 OPTS = {'quick': {'sample_every': 5, 'path_wall_s': 8}, 'thorough': {'sample_every': 11, 'timeout_ms': 20000}}
 TWO_PI = 2 * math.pi
@@ -45,6 +45,7 @@ def configs(tier):
     out.append(('wrap-N3', {'kind': 'wrap', 'N': 3}))
     for c in ((2.0,) if q else (2.0, 0.25, 3.0, 256.0)):
         out.append(('normalise-N6-x%g' % c, {'kind': 'norm', 'N': 6, 'c': c, 'method': 'pchip', '_budget_s': 30 if q else 300}))
+    out.append(('normalise-4columns-N6', {'kind': 'norm2', 'N': 6, 'method': 'pchip', '_budget_s': 30 if q else 300}))
     if not q:
         out.append(('normalise-N6-x2-splrep', {'kind': 'norm', 'N': 6, 'c': 2.0, 'method': 'splrep', '_budget_s': 300}))
     return out
@@ -102,6 +103,26 @@ def harness(h):
                     whole = abs(k - round(k)) < 1e-9
                 ok = ok and in_range and whole
             h.check(ok, 'wrap-range-and-congruence', mode)
+    elif kind == 'norm2':
+        method = h.params['method']
+        x = h.reals('x', N, lo=-8, hi=8)
+        # further columns with an envelope each (every column needs at least one normalisation pass)
+        others = [np.array([0.5, -1.0, 2.0, -0.25, 1.5, -0.75, 0.125, 1.0][:N]),
+                  np.array([-0.25, 1.0, -0.5, 2.0, -1.0, 0.75, -2.0, 0.5][:N]),
+                  np.array([1.0, -3.0, 0.5, -1.0, 2.5, -0.5, 1.5, -2.0][:N])]
+        if h.symbolic:
+            from symnp.stubs import as_obj
+            others = [as_obj(o) for o in others]
+        both = np.stack([np.asarray(x)] + others, axis=1)
+        try:
+            joint = np.asarray(utils.amplitude_normalise(both, interp_method=method))
+            alone = [np.asarray(utils.amplitude_normalise(np.asarray(col).reshape(N, 1), interp_method=method))
+                     for col in [np.asarray(x)] + others]
+        except Exception as e:
+            h.fail('normalise-columns-independent', '%s: %s' % (type(e).__name__, e))
+            return
+        for j in range(4):
+            h.check_eq(joint[:, j], alone[j][:, 0], 'normalise-columns-independent', 'column %d depends on the other columns' % j)
     else:
         c, method = h.params['c'], h.params['method']
         x = h.reals('x', N, lo=-8, hi=8)
